@@ -64,15 +64,15 @@ def run_case(case):
         counters[k] = counters.get(k, 0) + v
 
     b = progcase.Built(prog).build_sources()
+    rng = derive_rng("C16", shash(prog))
+    method = case.get("shuffle") or rng.choice(["tasks", "tasks", "disk"])
     try:
         b.eval_pd()
-        b.eval_dx()
+        b.eval_dx(method)
     except Exception:
         return {"status": "refused", "counters": {"build_refused": 1}}
     flags = {"order": b.out_pd.order, "index": b.out_pd.index}
     q = b.out_dx
-    rng = derive_rng("C16", shash(prog))
-    method = case.get("shuffle") or rng.choice(["tasks", "tasks", "disk"])
     forms = case.get("forms") or (FORMS if case.get("canary") else rng.sample(FORMS, 2))
     scratch = os.environ.get("VMON_SCRATCH", "/tmp")
     viol = None
